@@ -90,18 +90,20 @@ def handle : Handler
       | .error e => some (showErr e)
       | .ok none => some "ok nan"
       | .ok (some r) => some ("ok " ++ showRat r)) "bad-args"
-  | "c11.core", [ip, ix] => some <| Option.getD (do
+  | "c11.core", [n, m, ip, ix] => some <| Option.getD (do
+      let n ← n.toNat?
+      let m ← m.toNat?
       let ip ← natList? ip
       let ix ← natList? ix
-      match computeCore ip ix with
-      | none => some "fuel"
-      | some l => some ("ok " ++ showList l)) "bad-args"
-  | "c11.cliques", [n, ip, ix, dt, k] => some <| Option.getD (do
-      let c ← csrRat? n n ip ix dt
+      match getCoreDecomposition n m ip ix with
+      | .error e => some (showErr e)
+      | .ok none => some "fuel"
+      | .ok (some l) => some ("ok " ++ showList l)) "bad-args"
+  | "c11.cliques", [n, m, ip, ix, dt, k] => some <| Option.getD (do
+      let c ← csrRat? n m ip ix dt
       let k ← k.toInt?
       let em := edgeMat c
-      if k < 2 then some (showErr .valueError) else
-      match countCliques c.nRow ⟨c.indptr.toList, c.indices.toList⟩ (edgeOf em) k.toNat with
+      match countCliquesEntry c.nRow c.nCol ⟨c.indptr.toList, c.indices.toList⟩ (edgeOf em) k with
       | .error e => some (showErr e)
       | .ok none => some "fuel"
       | .ok (some t) => some s!"ok {t}") "bad-args"
